@@ -1027,6 +1027,9 @@ namespace adm {
         NodePtr node, boost::optional<TimeReference> timeReference) {
       AudioBlockFormatBinaural audioBlockFormat;
 
+      setOptionalAttribute<AudioBlockFormatId>(node, "audioBlockFormatID",
+                                               audioBlockFormat,
+                                               &parseAudioBlockFormatId);
       addTimeParametersToBlock(node, audioBlockFormat, timeReference);
       setOptionalAttribute<InitializeBlock>(node, "initializeBlock",
                                             audioBlockFormat);
